@@ -86,10 +86,10 @@ def c052(ctx):
                   "an entry can be read and skipped without being written to the output", pt=n, path=p)
     for pt in put:
         t = P.term_at(f, pt)
-        names = set()
+        srcs = set()
         for a in t["args"][1:]:
-            names |= K.var_names(f, a)
-        ctx.check(R, f, "writes-current", "kvr" in names, "what is written is the current kvr's key/timestamp/value",
+            srcs |= P.origin_calls(f, a)
+        ctx.check(R, f, "writes-current", any(c.endswith("::key_value") for c in srcs), "what is written is the current kvr's key/timestamp/value",
                   "the written entry is not the one just read", pt=pt)
     seal = ctx.calls(R, f, r"sst::SstMultiBuilder as sst::Builder>::seal$")
     cf = ctx.calls(R, f, TREE + r"compaction_finish$")
@@ -128,10 +128,11 @@ def c053(ctx):
                                          ("acc += input", P.call_points(f, r"AddAssign>::add_assign$"))])
         mc = ctx.calls(R, f, r"sst::merging_cursor::MergingCursor.*::new$")
         for pt in mc:
-            ctx.check(R, f, "merge-all", "cursors" in K.var_names(f, P.term_at(f, pt)["args"][0]), "the merging cursor is built over the pushed cursors",
+            ctx.check(R, f, "merge-all", any(c.endswith("Sst::cursor") for c in P.origin_calls(f, P.term_at(f, pt)["args"][0])), "the merging cursor is built over the pushed cursors",
                       "the merging cursor is not built over the opened inputs", pt=pt)
         for pt in P.call_points(f, r"mani::Edit::rm$"):
-            ctx.check(R, f, "rm-is-input", "input" in K.var_names(f, P.term_at(f, pt)["args"][1]), "the removed manifest entry is the input's digest",
+            ctx.check(R, f, "rm-is-input", any(s_["k"] == "call" and s_["callee"].endswith("::hexdigest") and any(c.endswith("Compaction::inputs") for c in P.origin_calls(f, s_["t"]["args"][0]))
+                                                for s_ in P.origins(f, P.term_at(f, pt)["args"][1])), "the removed manifest entry is the input's digest",
                       "Edit::rm is not given the input's digest", pt=pt)
     f = ctx.fn(R, TREE + "compaction_finish")
     if f:
@@ -144,8 +145,8 @@ def c053(ctx):
         am = ctx.calls(R, f, TREE + "apply_manifest_compaction$")
         for pt in am:
             t = P.term_at(f, pt)
-            ctx.check(R, f, "outputs-forwarded", "outputs" in K.var_names(f, t["args"][4]) and "mani_edit" in K.var_names(f, t["args"][3])
-                      and "compaction" in K.var_names(f, t["args"][1]),
+            ctx.check(R, f, "outputs-forwarded", any(c.endswith("FileManager::stat") for c in P.origin_calls(f, t["args"][4])) and "p7" in K.sig(f, t["args"][3])
+                      and "p2" in K.sig(f, t["args"][1]),
                       "apply_manifest_compaction receives the claim, the edit and the collected outputs",
                       "apply_manifest_compaction is not given the collected outputs / edit / claim", pt=pt)
     f = ctx.fn(R, "lsmtk::tree::Version::apply_compaction")
